@@ -837,4 +837,11 @@ def c06_m(ctx: Ctx):
     return res
 
 
-RULES = [c06_l, c06_a, c06_b, c06_c, c06_d, c06_e, c06_f, c06_g, c06_h, c06_i, c06_j, c06_k, c06_m]
+@rule("C06-n")
+def c06_n(ctx: Ctx):
+    """Every token of the simple filter syntax takes part in the filter (no pairing that drops an odd last token)."""
+    from .lints import no_pairwise_zip_of_slices
+    return no_pairwise_zip_of_slices(ctx, "C06-n", ("signac.filterparse",))
+
+
+RULES = [c06_l, c06_a, c06_b, c06_c, c06_d, c06_e, c06_f, c06_g, c06_h, c06_i, c06_j, c06_k, c06_m, c06_n]
